@@ -91,10 +91,6 @@ def out_of_order(events):
     return any(a > b for a, b in zip(fin, fin[1:]))
 
 
-def serial_lines(case, ndemands):
-    tail = '-' if case.get('tail') is None else 'e%d' % case['tail']
-    return 'pipe.serial %d 0 0 | %s | %s | %s' % (1 if case['cfg']['skipNone'] else 0, tail,
-                                                  ' '.join(pipelib.model_outcomes(case, parallel=False)), ' '.join(['N'] * ndemands))
 
 
 def judge(ctx, case, res, mout):
@@ -134,8 +130,9 @@ def judge(ctx, case, res, mout):
             ctx.traces_validated += 1
             if st.get('out', '').split(',') != got:
                 ctx.disagree('parallel-output-equals-model', small, got, st.get('out'))
-            if st['pc'] != 'done':
-                ctx.disagree('parallel-final-state', small, 'finished', st['pc'])
+            want_pc = 'done' if exp[-1:] == ['stop'] else 'failed'
+            if st['pc'] != want_pc and got == exp:
+                ctx.disagree('parallel-final-state', small, want_pc, st['pc'])
     else:
         if not mout:
             ctx.disagree('serial-history', small, got, 'no model output')
@@ -206,26 +203,51 @@ def chain_cases(ctx):
             ctx.disagree('chain-equals-composed-model-spec', case, got, cur)
 
 
-def check(ctx):
-    cases = gen_cases(ctx)
-    results = pipelib.run_cases(cases, workers=16)
+def serial_demands(case, res):
+    """demand tokens for the serial machine, one per consumer action that produced a read / close"""
+    toks = []
+    for t, i, p in res['events']:
+        if t == 'N':
+            toks.append('N')
+        elif t == 'C':
+            toks.append('C')
+        elif t == 'T':
+            toks.append('T%d' % i)
+    return toks
+
+
+def execute(cases, workers=16):
+    """run the scenarios on the implementation and their traces through the model: [(case, res, model lines)]"""
+    results = pipelib.run_cases(cases, workers=workers)
     lines, spans = [], []
     for c, r in zip(cases, results):
         if 'harness_error' in r:
             raise core.InfraError('scenario runner failed: ' + r['harness_error'])
+        if any('controller process ended abnormally' in x for x in r.get('notes', [])):
+            raise core.InfraError('scenario controller failed: %s' % r['notes'])
         if c['cfg']['nworkers'] > 0:
-            lines.append(pipelib.trace_line(c, r['events']))
+            lines.append(pipelib.trace_line(c, r['events'], c.get('pre_model', (0, 0))))
             spans.append(1)
         else:
-            nd = len(r['reads'])
-            if nd:
-                lines.append(serial_lines(c, nd))
-            spans.append(nd)
+            dem = serial_demands(c, r)
+            if dem:
+                pre = c.get('pre_model', (0, 0))
+                tail = '-' if c.get('tail') is None else 'e%d' % c['tail']
+                lines.append('pipe.serial %d %d %d | %s | %s | %s' % (
+                    1 if c['cfg']['skipNone'] else 0, pre[0], pre[1], tail,
+                    ' '.join(pipelib.model_outcomes(c, parallel=False)), ' '.join(dem)))
+            spans.append(len(dem))
     mout = core.run_driver(lines)
-    pos = 0
+    out, pos = [], 0
     for c, r, k in zip(cases, results, spans):
-        judge(ctx, c, r, mout[pos:pos + k])
+        out.append((c, r, mout[pos:pos + k]))
         pos += k
+    return out
+
+
+def check(ctx):
+    for c, r, m in execute(gen_cases(ctx)):
+        judge(ctx, c, r, m)
     chain_cases(ctx)
 
 
@@ -234,12 +256,8 @@ def replay(ctx, data):
     if 'chain' in case:
         chain_cases(ctx)
         return
-    res = pipelib.run_cases([case], workers=1)[0]
-    if case['cfg']['nworkers'] > 0:
-        mout = core.run_driver([pipelib.trace_line(case, res['events'])])
-    else:
-        mout = core.run_driver([serial_lines(case, len(res['reads']))]) if res['reads'] else []
-    judge(ctx, case, res, mout)
+    for c, r, m in execute([case], workers=1):
+        judge(ctx, c, r, m)
 
 
 if __name__ == '__main__':
